@@ -9,9 +9,11 @@ export CARGO_TARGET_DIR=/tmp/wt/confirm-target
 git -C /repo worktree remove --force $WT 2>/dev/null
 git -C /repo worktree add -q --detach $WT HEAD || exit 1
 HEADC=$(git -C /repo rev-parse --short HEAD)
-LOG=/tmp/wt/confirm.log; : > $LOG
-for d in /tmp/wt/C*/MUT*; do
-  prop=$(basename $(dirname $d)); k=$(basename $d); id="${prop}_${k}"
+LOG=/tmp/wt/confirm.log; : >> $LOG
+# SRC_GLOB selects the sub-agent directories (round 2: /tmp/wt/R2C*/MUT*), OFFSET renumbers (round 2: 2)
+for d in ${SRC_GLOB:-/tmp/wt/C*/MUT*}; do
+  prop=$(basename $(dirname $d)); prop=${prop#R2}; k=$(basename $d); n=${k#MUT}; id="${prop}_MUT$((n+${OFFSET:-0}))"
+  [ -n "${ONLY:-}" ] && [[ ! " $ONLY " =~ " $prop " ]] && continue
   demo_path=$(grep -ohE "(lexpr|serde-lexpr)/tests/[A-Za-z0-9_]+\.rs" $d/README.md | head -1)
   crate=$(dirname $(dirname $demo_path)); tname=$(basename $demo_path .rs)
   cd $WT && git checkout -q -- . && git clean -fdq
